@@ -292,6 +292,7 @@ func c03Replay(e *core.Env, data json.RawMessage) (bool, string) {
 func init() {
 	core.Register(&core.Check{
 		ID: "C03", Level: "model_checking", Run: c03Run, Replay: c03Replay,
+		Added:       "position life histories; -v combined with --remap; three-file layout under every loader schedule",
 		QuickBudget: 100 * time.Second, ThoroughBudget: 14 * time.Minute,
 		Rule: "every sequence of <= N directives over {7 position/flow transactions in USD/AAPL/EUR/CHF, 6 price declarations (two values, inverse, chained, 8 decimals)} x 3 dates (journals with two prices for one pair on one day excluded), x valuation {CHF,USD} x --to x intervals x --close; " +
 			"every A/L cell is compared with quantity x latest price, income mirror accounts with the accumulated gain, other E/I/E cells with booking-day values, within one 1e-8 truncation per arithmetic step; missing price => clean failure; non-trivial = at least one cell compared",
